@@ -58,7 +58,7 @@ func runC10(x *Ctx) {
 	x.C.Rule("C10.R1", "constructors and decoders pass through validate(); validate's decision table", 14)
 	x.C.Rule("C10.R2", "who may write Token fields", 2)
 	x.C.Rule("C10.R3", "decode-side validators per field; policy decoders accept only the expected kinds and arities", 30)
-	x.C.Rule("C10.R4", "integer bound validation: bounds, recursion over all children, Args.Add", 9)
+	x.C.Rule("C10.R4", "integer bound validation: bounds, recursion over all children, Args.Add; literal.Any hands the caller's scalars to the node constructors unchanged", 11)
 	x.C.Rule("C10.R5", "lossless unsigned -> int64 conversions", 2)
 	x.C.Rule("C10.R6", "tags distinct; generic decoder dispatch", 5)
 	x.C.Rule("C10.R7", "args.Builder keeps every refusal of Args.Add until Build", 3)
@@ -114,6 +114,7 @@ func runC10(x *Ctx) {
 	losslessConversions(x)
 	tagRules(x)
 	builderKeepsRefusals(x)
+	literalVerbatim(x)
 }
 
 func whoWritesTokens(x *Ctx) {
